@@ -131,7 +131,16 @@ def gen_case(rng):
             n_meas = rng.choice([1, 2, 3, 4]) if (k == 0 or i == ids[0]) else rng.choice([0, 1, 2, 3])
             for _ in range(n_meas):
                 mine.append({'id': i, 'time': rng.randint(1, 64) / 8, 'obs': o, 'value': rng.randint(1, 64) / 8})
-        if rng.random() < 0.4:       # duplicate time for the same observable
+        if n_out == 2 and rng.random() < 0.25:
+            # one observable with a replicate, the other without, and as many measurements of each as there are
+            # distinct times: equal counts do not make the time grids equal
+            a, b, c = sorted(rng.sample(range(1, 65), 3))
+            ta, tb = ([a, b, b], [a, b, c]) if rng.random() < 0.5 else ([a, a, c], [a, b, c])
+            if rng.random() < 0.5:
+                ta, tb = tb, ta
+            mine = [{'id': i, 'time': t / 8, 'obs': o, 'value': rng.randint(1, 64) / 8}
+                    for o, ts in zip(observables, (ta, tb)) for t in ts]
+        elif rng.random() < 0.4:       # duplicate time for the same observable
             src = rng.choice(mine)
             mine.append(dict(src, value=rng.randint(1, 64) / 8))
         if rng.random() < 0.5:
